@@ -21,7 +21,7 @@ demo() { # run every demo *.rs as an integration test in 3 feature sets; prints 
   for t in $D/demo/*.rs; do
     bn=$(basename $t .rs); [ "$bn" = example_main ] && continue
     cp $t tests/zz_$bn.rs
-    for feat in "" "--features compact" "--features alloc"; do
+    for feat in "" "--features compact" "--features alloc" "--no-default-features --features compact" "--release"; do
       r=$(cargo test --offline $feat --test zz_$bn 2>&1 | grep -E "^test result:|^error(\[|:)" | head -1 | sed -e 's/test result: //' -e 's/;.*ignored//' | tr ' ' '_' | cut -c1-40)
       res="$res [$bn|${feat:-default}|$r]"
     done
